@@ -268,32 +268,24 @@ NULLABLE = {'memchr', 'strchr', 'strrchr', 'strpbrk', 'strstr', 'getenv', 'fopen
 
 
 def derefs_var(e, v):
-    """event e dereferences pointer variable v (arrow, *, [], pointer difference)."""
-    def in_desc(d):
-        for x in walk(d):
-            if x.get('k') == 'mem' and x.get('arrow') and isinstance(strip(x.get('b')), dict) and \
-                    strip(x['b']).get('k') == 'var' and strip(x['b'])['n'] == v:
-                return True
-            if x.get('k') == 'un' and x['op'] == '*' and isinstance(strip(x['e']), dict) and \
-                    strip(x['e']).get('k') == 'var' and strip(x['e'])['n'] == v:
-                return True
-            if x.get('k') == 'idx' and isinstance(strip(x['b']), dict) and strip(x['b']).get('k') == 'var' and \
-                    strip(x['b'])['n'] == v:
-                return True
-            if x.get('k') == 'bin' and x['op'] == '-' and any(
-                    isinstance(strip(s), dict) and strip(s).get('k') == 'var' and strip(s)['n'] == v and
-                    strip(s).get('tk') == 'ptr' for s in (x['l'], x['r'])):
-                return True
-            if x.get('k') == 'call' and 'recv' in x and x.get('op') in (None,) and isinstance(strip(x['recv']), dict) and \
-                    strip(x['recv']).get('k') == 'var' and strip(x['recv'])['n'] == v and strip(x['recv']).get('tk') == 'ptr':
-                return True
-            if x.get('k') == 'call' and x.get('op') in ('->', '*') and 'recv' in x and isinstance(strip(x['recv']), dict) and \
-                    strip(x['recv']).get('k') == 'var' and strip(x['recv'])['n'] == v:
-                return True
-        return False
-    for k in ('l', 'r', 'e', 'init', 'recv', 'args', 'b', 'i'):
-        if k in e and in_desc(e[k]):
-            return True
+    """event e is the evaluation of a dereference of pointer variable v at this CFG position:
+    `*v`, `v->m`, `v[i]`, or pointer arithmetic `x - v` / `v - x` (value of v needed)."""
+    def isv(d):
+        d = strip(d)
+        return isinstance(d, dict) and d.get('k') == 'var' and d['n'] == v
+    k = e['k']
+    if k in ('deref', 'arrow'):
+        return isv(e.get('e'))
+    if k == 'idx':
+        return isv(e.get('b'))
+    if k == 'call' and e.get('op') in ('->', '*') and 'recv' in e:
+        return isv(e['recv'])
+    # pointer difference with v (e.g. `end - start` where end came from memchr)
+    for key in ('l', 'r', 'e', 'init', 'args'):
+        if key in e:
+            for x in walk(e[key]):
+                if x.get('k') == 'bin' and x['op'] == '-' and any(isv(y) and strip(y).get('tk') == 'ptr' for y in (x['l'], x['r'])):
+                    return True
     return False
 
 
@@ -529,8 +521,7 @@ def run(ctx):
             for u in f.events():
                 if u is d or not f.ev_reaches(d, u) or not derefs_var(u, v):
                     continue
-                if not any(x.get('k') == 'call' and x.get('op') in ('->', '*') and is_var(v)(x.get('recv'))
-                           for k in ('l', 'r', 'e', 'init', 'recv', 'args') if k in u for x in walk(u[k])):
+                if not (u['k'] == 'call' and u.get('op') in ('->', '*')):
                     continue
                 n2 += 1
                 facts = f.facts_at(u)
